@@ -60,6 +60,12 @@ package console
 //vc:  requires[C11] @compareInConfModeOnlyWidth confAllowed(isCompareRun, confMode, cmd)
 //vc:  ensures[C11] confMode == confAfter(old(confMode), cmd)
 //vc:  requires[C09] @nothingSentAfterAbort !panicking() || cleanupCmd(cmd)
+// SendCmd waits for the prompt and throws the device's answer away. Only
+// commands whose rejection cannot go unnoticed may be sent this way: the empty
+// command, mode switches (a refused "configure terminal" makes the next checked
+// command fail) and session settings of the exec level. A configuration line
+// sent this way can be rejected by the device without the run noticing (C09).
+//vc:  requires[C09] @answerNotDiscarded cmd == "" || cmd == "end" || cmd == "configure terminal" || cmd == "terminal pager 0" || cmd == "term len 0" || cmd == "term width 512"
 
 //vc:func (*Conn).GetCmdOutput
 //vc:  requires[C11] sendAllowed(isCompareRun, loginPass, cmd)
